@@ -15,7 +15,139 @@ use super::Run;
 use crate::bind::{RunOpts, run_pipeline};
 use crate::pool::Pool;
 
+// ---------------------------------------------------------------------------
+// token-level rewrites of harvested program texts
+// ---------------------------------------------------------------------------
+
+use vcore::btok::{Tok, TokKind, join, tokenize};
+
+const TEXT_RULES: [&str; 3] = ["FOR without STEP -> STEP 1", "WHILE / WEND -> DO WHILE / LOOP", "UNTIL c -> WHILE NOT (c) for a comparison c"];
+
+/// Statements of a token list: index ranges between separators (line end, colon, comment).
+fn statements(toks: &[Tok]) -> Vec<(usize, usize)> {
+    let mut out = vec![];
+    let mut start = 0;
+    let mut in_data = false;
+    for (i, t) in toks.iter().enumerate() {
+        let sep = match t.kind {
+            TokKind::Eol | TokKind::Comment => true,
+            TokKind::Symbol if t.text == ":" && !in_data => true,
+            _ => false,
+        };
+        if t.kind == TokKind::Word && t.text.eq_ignore_ascii_case("DATA") {
+            in_data = true;
+        }
+        if sep {
+            if start < i {
+                out.push((start, i));
+            }
+            start = i + 1;
+            if t.kind != TokKind::Symbol {
+                in_data = false;
+            }
+        }
+    }
+    if start < toks.len() {
+        out.push((start, toks.len()));
+    }
+    out
+}
+
+fn words(toks: &[Tok], (s, e): (usize, usize)) -> Vec<(usize, String)> {
+    (s..e).filter(|i| toks[*i].kind == TokKind::Word).map(|i| (i, toks[i].text.to_ascii_uppercase())).collect()
+}
+
+/// Applies a rule at all its sites; None if there is no site.
+fn rewrite_text(text: &str, rule: usize) -> Option<String> {
+    let toks = tokenize(text);
+    let mut out = toks.clone();
+    let mut sites = 0;
+    let tok = |kind, text: &str| Tok { kind, text: text.to_string() };
+    for st in statements(&toks) {
+        let ws = words(&toks, st);
+        let Some((first_ix, first)) = ws.first().cloned() else { continue };
+        // the first non-blank token must be that word (not a label or a number)
+        if (st.0..first_ix).any(|i| toks[i].kind != TokKind::Blank) {
+            continue;
+        }
+        match rule {
+            0 => {
+                if first == "FOR" && ws.iter().any(|(_, w)| w == "TO") && !ws.iter().any(|(_, w)| w == "STEP") {
+                    // after the last non-blank token of the statement
+                    let last = (st.0..st.1).rev().find(|i| toks[*i].kind != TokKind::Blank).unwrap();
+                    out[last].text = format!("{} STEP 1", toks[last].text);
+                    sites += 1;
+                }
+            }
+            1 => {
+                if first == "WHILE" {
+                    out[first_ix] = tok(TokKind::Word, "DO WHILE");
+                    sites += 1;
+                } else if first == "WEND" && ws.len() == 1 {
+                    out[first_ix] = tok(TokKind::Word, "LOOP");
+                }
+            }
+            _ => {
+                if (first == "DO" || first == "LOOP") && ws.get(1).map(|(_, w)| w == "UNTIL").unwrap_or(false) {
+                    let until_ix = ws[1].0;
+                    let cond: Vec<usize> = (until_ix + 1..st.1).collect();
+                    let has_rel = cond.iter().any(|i| toks[*i].kind == TokKind::Symbol && matches!(toks[*i].text.as_str(), "=" | "<" | ">"));
+                    let has_logic = cond.iter().any(|i| toks[*i].kind == TokKind::Word && matches!(toks[*i].text.to_ascii_uppercase().as_str(), "AND" | "OR" | "NOT" | "XOR" | "EQV" | "IMP"));
+                    if has_rel && !has_logic && !cond.is_empty() {
+                        out[until_ix] = tok(TokKind::Word, "WHILE NOT (");
+                        let last = cond.iter().rev().find(|i| toks[**i].kind != TokKind::Blank).copied().unwrap();
+                        out[last].text = format!("{})", toks[last].text);
+                        sites += 1;
+                    }
+                }
+            }
+        }
+    }
+    if sites == 0 { None } else { Some(join(&out)) }
+}
+
+fn harvested_worker(case: &Value) -> Value {
+    let mut hist: std::collections::BTreeMap<String, u64> = Default::default();
+    let mut bads = vec![];
+    let mut n = 0u64;
+    let mut nontrivial = 0u64;
+    let mut sample = Value::Null;
+    for t in case["texts"].as_array().cloned().unwrap_or_default() {
+        let text = t.as_str().unwrap_or("");
+        let opts = RunOpts { stdin: b"1\n2\n3\n".to_vec(), budget: 300_000, collect_files: true, ..RunOpts::default() };
+        let base = run_pipeline(text, &opts);
+        if !matches!(base.end, vcore::outcome::End::Normal | vcore::outcome::End::RuntimeError { .. }) {
+            *hist.entry("base-not-run".into()).or_insert(0) += 1;
+            continue;
+        }
+        for rule in 0..TEXT_RULES.len() {
+            let Some(r) = rewrite_text(text, rule) else { continue };
+            n += 1;
+            nontrivial += 1;
+            let o = run_pipeline(&r, &opts);
+            if sample.is_null() {
+                sample = json!({"rule": TEXT_RULES[rule], "original": super::truncate_text(text, 300), "rewritten": super::truncate_text(&r, 300)});
+            }
+            let same = o.stdout == base.stdout && o.lpt1 == base.lpt1 && o.end.class() == base.end.class();
+            *hist.entry(if same { "same".to_string() } else { "different".to_string() }).or_insert(0) += 1;
+            if !same && bads.len() < 25 {
+                bads.push(json!({
+                    "sig": format!("C02|harvested|{}|{}->{}", TEXT_RULES[rule], base.end.class(), o.end.class()),
+                    "summary": format!("{}: original prints {:?} ({}), rewritten prints {:?} ({}) — original {:?} — rewritten {:?}", TEXT_RULES[rule], super::truncate_text(&base.stdout_str(), 80), base.end.class(), super::truncate_text(&o.stdout_str(), 80), o.end.class(), super::truncate_text(text, 300), super::truncate_text(&r, 300)),
+                    "text": r,
+                    "original": text,
+                    "case": {"g": "harvested", "texts": [text]},
+                }));
+            }
+        }
+    }
+    json!({"n": n, "nontrivial": nontrivial, "hist": hist, "bad": bads, "sample": sample})
+}
+
 pub fn worker(case: &Value) -> Value {
+    if case["g"].as_str() == Some("harvested") {
+        return harvested_worker(case);
+    }
     if let Some(text) = case["text"].as_str() {
         let o = run_pipeline(text, &RunOpts::default());
         return json!({"n": 1, "bad": [], "observed": {"stdout": o.stdout_str(), "end": format!("{:?}", o.end)}});
@@ -112,8 +244,13 @@ pub fn drive(tier: &str) -> i32 {
     if (run.cases as usize) < total_cases {
         run.capped = true;
     }
+    // the repository's own program texts, rewritten at token level
+    let h = crate::corpus::harvest();
+    let harvested: Vec<String> = h.texts.iter().map(|(_, t)| t.clone()).filter(|t| !t.to_ascii_uppercase().contains("INKEY")).collect();
+    let group = super::run_text_group(&mut run, &pool, "harvested texts rewritten at token level", &harvested, 20, &json!({"g": "harvested"}));
+    plan.push(group);
     let mut ev = Evidence::new("exploration");
-    ev.set("rule", "base programs: every ordered forest of n construct nodes over 15 construct kinds (see C01 axis A), children in the first or last body, at module level or inside a SUB. Rewrite rules (FOR->WHILE with explicit limit/step temporaries, WHILE->DO WHILE, DO UNTIL c->DO WHILE NOT (c), SELECT CASE->IF/ELSEIF chain on a temporary, single-line IF->block IF, FOR->FOR STEP 1, loop body->IF -1 THEN body END IF) are applied as AST-to-AST functions at every applicable site alone and at all sites together; original and rewritten text are both run on the real pipeline; stdout, LPT1 and end class must be equal. Non-trivial = every rewritten statement was executed in the original run (reference trace).");
+    ev.set("rule", "harvested: every program text embedded in the repository's tests and fixtures that runs, rewritten at token level at all sites by FOR without STEP -> STEP 1, WHILE / WEND -> DO WHILE / LOOP, DO / LOOP UNTIL c -> WHILE NOT (c) when c is a single comparison. base programs: every ordered forest of n construct nodes over 15 construct kinds (see C01 axis A), children in the first or last body, at module level or inside a SUB. Rewrite rules (FOR->WHILE with explicit limit/step temporaries, WHILE->DO WHILE, DO UNTIL c->DO WHILE NOT (c), SELECT CASE->IF/ELSEIF chain on a temporary, single-line IF->block IF, FOR->FOR STEP 1, loop body->IF -1 THEN body END IF) are applied as AST-to-AST functions at every applicable site alone and at all sites together; original and rewritten text are both run on the real pipeline; stdout, LPT1 and end class must be equal. Non-trivial = every rewritten statement was executed in the original run (reference trace).");
     ev.set("exhaustive", !run.capped);
     ev.set("plan", json!(plan));
     ev.assume("the rewrite functions are correct by construction on the generated subset (integer counters, integer SELECT subjects, non-zero steps)");
